@@ -68,7 +68,13 @@ def _run_hypothesis(sc, n, seed, matchers, shrink=True):
                 raise _Violation(f.bucket)
             state["others"].setdefault(f.bucket, (case, f))
 
-    phases = [Phase.generate, Phase.target] + ([Phase.shrink] if shrink else [])
+    phases = [Phase.generate] + ([Phase.target] if getattr(sc, "use_target", False) else []) + \
+        ([Phase.shrink] if shrink else [])
+    try:    # bound the shrinker (default hard cap is 300 s); a budget hit keeps the partly shrunk case
+        import hypothesis.internal.conjecture.engine as _eng
+        _eng.MAX_SHRINKING_SECONDS = float(os.environ.get("VERIF_SHRINK_S", "40"))
+    except Exception:
+        pass
     st = settings(max_examples=max(1, n), database=None, deadline=None, derandomize=False,
                   report_multiple_bugs=False, phases=phases, verbosity=hypothesis.Verbosity.quiet,
                   suppress_health_check=[HealthCheck.too_slow, HealthCheck.data_too_large,
